@@ -410,3 +410,137 @@ func (c *Ctx) ImmutableAfterConstruction(rule, ifacePkg, what string) {
 		c.R.OK(rule, impl.Obj().Pkg().Name()+"."+impl.Obj().Name(), "-", fmt.Sprintf("fields %v are written by the constructor only (%d methods scanned)", names, nfn))
 	}
 }
+
+// ImmutableSliceConfig: the slice-typed configuration fields of a service (set by its constructor: passphrases, lists)
+// are never modified at request time - neither directly nor through a field of another structure of the package that
+// was assigned the configured slice itself (not a copy). Element stores, clear and copy-into are the writes looked for.
+func (c *Ctx) ImmutableSliceConfig(rule, ifacePkg, what string) {
+	impl := c.Role(rule, ifacePkg, "Service")
+	if impl == nil {
+		return
+	}
+	st, ok := impl.Underlying().(*types.Struct)
+	if !ok {
+		return
+	}
+	pkgPath := impl.Obj().Pkg().Path()
+	type fld struct {
+		owner *types.Named
+		name  string
+	}
+	shared := map[fld]string{} // field -> the configuration field it may alias
+	for i := 0; i < st.NumFields(); i++ {
+		if _, isSlice := st.Field(i).Type().Underlying().(*types.Slice); isSlice {
+			shared[fld{impl, st.Field(i).Name()}] = st.Field(i).Name()
+		}
+	}
+	if len(shared) == 0 {
+		c.R.OK(rule, impl.Obj().Pkg().Name()+"."+impl.Obj().Name(), "-", "no slice-typed configuration fields")
+		return
+	}
+	fieldOfLoad := func(v ssa.Value) (fld, bool) {
+		owner, f, _ := an.FieldOf(v)
+		if owner == nil {
+			return fld{}, false
+		}
+		n := namedOf(owner)
+		if n == nil {
+			return fld{}, false
+		}
+		return fld{n, f}, true
+	}
+	var mayAlias func(v ssa.Value, d int) (string, bool)
+	mayAlias = func(v ssa.Value, d int) (string, bool) {
+		if d > 4 {
+			return "", false
+		}
+		v = an.StripConv(v)
+		if phi, ok := v.(*ssa.Phi); ok {
+			for _, e := range phi.Edges {
+				if src, ok := mayAlias(e, d+1); ok {
+					return src, true
+				}
+			}
+			return "", false
+		}
+		if sl, ok := v.(*ssa.Slice); ok {
+			return mayAlias(sl.X, d+1)
+		}
+		if f, ok := fieldOfLoad(v); ok {
+			if src, isShared := shared[f]; isShared {
+				return src, true
+			}
+		}
+		return "", false
+	}
+	var fns []*ssa.Function
+	for _, fn := range c.P.ModuleFuncs() {
+		if prog.PkgPathOf(fn) == pkgPath && fn.Blocks != nil && !prog.IsTestish(pkgPath) {
+			fns = append(fns, fn)
+		}
+	}
+	// propagate through field assignments (two rounds)
+	for round := 0; round < 2; round++ {
+		for _, fn := range fns {
+			for _, b := range fn.Blocks {
+				for _, ins := range b.Instrs {
+					s2, ok := ins.(*ssa.Store)
+					if !ok {
+						continue
+					}
+					fa, ok := s2.Addr.(*ssa.FieldAddr)
+					if !ok {
+						continue
+					}
+					n := namedOf(fa.X.Type())
+					if n == nil || n == impl {
+						continue
+					}
+					if src, ok := mayAlias(s2.Val, 0); ok {
+						shared[fld{n, fieldNameOf(fa)}] = src
+					}
+				}
+			}
+		}
+	}
+	bad := 0
+	for _, fn := range fns {
+		outer := fn
+		for outer.Parent() != nil {
+			outer = outer.Parent()
+		}
+		isCtor := outer.Signature.Recv() == nil && outer.Name() == "New"
+		for _, b := range fn.Blocks {
+			for _, ins := range b.Instrs {
+				var base ssa.Value
+				switch x := ins.(type) {
+				case *ssa.Store:
+					if ia, ok := x.Addr.(*ssa.IndexAddr); ok {
+						base = ia.X
+					}
+				case *ssa.Call:
+					if bi, ok := x.Call.Value.(*ssa.Builtin); ok && (bi.Name() == "clear" || bi.Name() == "copy") && len(x.Call.Args) > 0 {
+						base = x.Call.Args[0]
+					}
+				}
+				if base == nil || isCtor {
+					continue
+				}
+				if src, ok := mayAlias(base, 0); ok {
+					bad++
+					c.R.Fail(rule, Fn(fn)+":"+src, c.Pos(ins), "bytes of the "+what+" field "+src+" can be overwritten at request time (directly or through a structure that was given the configured slice itself rather than a copy): every later use of the configuration sees the overwritten value", "configuration bytes are never written after construction; hand out copies", nil)
+				}
+			}
+		}
+	}
+	if bad == 0 {
+		var names []string
+		for f, src := range shared {
+			if f.owner == impl {
+				names = append(names, src)
+			}
+		}
+		sort.Strings(names)
+		c.R.OK(rule, impl.Obj().Pkg().Name()+"."+impl.Obj().Name(), "-", fmt.Sprintf("slice configuration fields %v (and %d fields that may alias them) are never written at request time", names, len(shared)-len(names)))
+	}
+}
